@@ -17,6 +17,7 @@
     PROVED (C01_sound_partial), for every stream of documents and every oracle instance satisfying
       H_tmpl   pint's template check (ParseTest + Expand) is at least as strict as Prometheus' (ParseTest),
       H_str    a non-null scalar decodes into a Go string     (excludes explicit tags that do not resolve, bad !!binary),
+      H_null   a null-tagged scalar that spells a null resolves to null  (false only for an explicit !!null tag on a quoted text),
       H_empty  the empty string is not a label name, is a label value and is a valid template,
     and every single document satisfying [guards_doc] — the documented fragment:
       - one root; below it only mappings tagged !!map, sequences tagged !!seq and scalars with a scalar tag other
@@ -34,15 +35,16 @@ Open Scope list_scope.
 Theorem C01_sound_partial :
   forall (plines : list string -> node -> nat -> nat * nat)
          (metric_ok lname_ok lvalue_ok dur_ok expr_ok tmpl_pint tmpl_prom dur_zero : string -> bool)
-         (str_ok int_ok : node -> bool),
+         (str_ok int_ok null_ok : node -> bool),
     (forall n, n_kind n = KScalar -> n_tag n <> nullTag -> str_ok n = true) ->
+    (forall n, n_kind n = KScalar -> n_tag n = nullTag -> null_text (n_value n) -> null_ok n = true) ->
     (forall s, tmpl_pint s = true -> tmpl_prom s = true) ->
     lname_ok "" = false -> lvalue_ok "" = true -> tmpl_prom "" = true ->
     forall (lines : list string) (ds : list (node * nat)) (yerr : option perror),
       (forall d nl, ds = [(d, nl)] -> guards_doc d) ->
       strict_blocks expr_ok dur_ok tmpl_pint
         (parse_strict plines metric_ok lname_ok lvalue_ok dur_ok int_ok false lines ds yerr) = false ->
-      prom_accepts str_ok int_ok expr_ok dur_ok dur_zero metric_ok lname_ok lvalue_ok tmpl_prom (map fst ds) = true.
+      prom_accepts str_ok int_ok null_ok expr_ok dur_ok dur_zero metric_ok lname_ok lvalue_ok tmpl_prom (map fst ds) = true.
 Proof. intros. eapply stream_sound; eauto. Qed.
 Print Assumptions C01_sound_partial.
 
@@ -50,15 +52,16 @@ Print Assumptions C01_sound_partial.
 Theorem C01_rule_sound :
   forall (plines : list string -> node -> nat -> nat * nat)
          (metric_ok lname_ok lvalue_ok dur_ok expr_ok tmpl_pint tmpl_prom dur_zero : string -> bool)
-         (str_ok int_ok : node -> bool),
+         (str_ok int_ok null_ok : node -> bool),
     (forall n, n_kind n = KScalar -> n_tag n <> nullTag -> str_ok n = true) ->
+    (forall n, n_kind n = KScalar -> n_tag n = nullTag -> null_text (n_value n) -> null_ok n = true) ->
     (forall s, tmpl_pint s = true -> tmpl_prom s = true) ->
     lname_ok "" = false -> lvalue_ok "" = true -> tmpl_prom "" = true ->
     forall lines rn glabels,
       plain_below rn ->
       r_error (parse_rule_strict plines metric_ok lname_ok lvalue_ok lines rn) = None ->
       rule_blocks expr_ok dur_ok tmpl_pint glabels (parse_rule_strict plines metric_ok lname_ok lvalue_ok lines rn) = false ->
-      exists pr, dec_rule str_ok dur_ok rn = DOk pr /\
+      exists pr, dec_rule str_ok null_ok dur_ok rn = DOk pr /\
                  rule_valid expr_ok dur_zero metric_ok lname_ok lvalue_ok tmpl_prom pr = true.
 Proof. intros. eapply rule_sound; eauto. Qed.
 Print Assumptions C01_rule_sound.
@@ -72,11 +75,11 @@ Definition refutes (d : node) : Prop := model_blocks (mk d 0) = false /\ model_p
 Definition w_null_record : node :=
   Dc 1 1 388 [Mp "!!map" 1 1 388 [Sc "!!str" "groups" 1 1 439; Sq "!!seq" 2 1 388 [Mp "!!map" 2 3 388
     [Sc "!!str" "name" 2 3 439; Sc "!!str" "g" 2 9 439; Sc "!!str" "rules" 3 3 439;
-     Sq "!!seq" 4 3 388 [Mp "!!map" 4 5 388 [Sc "!!str" "record" 4 5 439; Sc "!!null" "~" 4 13 487; Sc "!!str" "expr" 5 5 439; Sc "!!str" "up" 5 11 439]]]]]].
+     Sq "!!seq" 4 3 388 [Mp "!!map" 4 5 388 [Sc "!!str" "record" 4 5 439; Sc "!!null" "~" 4 13 1511; Sc "!!str" "expr" 5 5 439; Sc "!!str" "up" 5 11 439]]]]]].
 Definition w_null_expr : node :=
   Dc 1 1 388 [Mp "!!map" 1 1 388 [Sc "!!str" "groups" 1 1 439; Sq "!!seq" 2 1 388 [Mp "!!map" 2 3 388
     [Sc "!!str" "name" 2 3 439; Sc "!!str" "g" 2 9 439; Sc "!!str" "rules" 3 3 439;
-     Sq "!!seq" 4 3 388 [Mp "!!map" 4 5 388 [Sc "!!str" "alert" 4 5 439; Sc "!!str" "A" 4 12 439; Sc "!!str" "expr" 5 5 439; Sc "!!null" "null" 5 11 503]]]]]].
+     Sq "!!seq" 4 3 388 [Mp "!!map" 4 5 388 [Sc "!!str" "alert" 4 5 439; Sc "!!str" "A" 4 12 439; Sc "!!str" "expr" 5 5 439; Sc "!!null" "null" 5 11 1527]]]]]].
 Definition w_nameless_group : node :=
   Dc 1 1 388 [Mp "!!map" 1 1 388 [Sc "!!str" "groups" 1 1 439; Sq "!!seq" 2 1 388 [Mp "!!map" 2 3 388
     [Sc "!!str" "interval" 2 3 439; Sc "!!str" "1m" 2 13 447]]]].
